@@ -27,6 +27,27 @@ var GNPool = []GNPoolEntry{
 	{"dns-hyphen34", func() *der.Node { return GNDNS("ab--cd.example.com") }},
 	{"dns-xn-bad", func() *der.Node { return GNDNS("xn--zz--.example.com") }},
 	{"dns-xn-good", func() *der.Node { return GNDNS("xn--bcher-kva.example.com") }},
+	// internationalised names: A-labels whose basic (ASCII) code points differ only in CASE. Punycode copies them
+	// verbatim, and a few letters compose with a following mark in one case only (h+U+0331 -> U+1E96, no capital
+	// form; I+U+0307 -> U+0130, small i does not), so case-variants of one A-label can differ in being NFC.
+	{"dns-idn-h-macron-lower-notnfc", func() *der.Node { return GNDNS("xn--h-oeb.example.com") }},
+	{"dns-idn-h-macron-upper-nfc", func() *der.Node { return GNDNS("xn--H-oeb.example.com") }},
+	{"dns-idn-h-macron-allupper", func() *der.Node { return GNDNS("XN--H-OEB.example.com") }},
+	{"dns-idn-t-diaeresis-lower-notnfc", func() *der.Node { return GNDNS("xn--t-ccb.example.org") }},
+	{"dns-idn-t-diaeresis-upper-nfc", func() *der.Node { return GNDNS("xn--T-ccb.example.org") }},
+	{"dns-idn-i-dot-upper-notnfc", func() *der.Node { return GNDNS("xn--I-9bb.example.com") }},
+	{"dns-idn-i-dot-lower-nfc", func() *der.Node { return GNDNS("xn--i-9bb.example.com") }},
+	{"dns-idn-good-upper-prefix", func() *der.Node { return GNDNS("XN--bcher-kva.example.com") }},
+	{"dns-idn-good-upper-basic", func() *der.Node { return GNDNS("xn--Bcher-kva.example.com") }},
+	{"dns-idn-ascii-only-alabel", func() *der.Node { return GNDNS("www.example.xn--com-") }},
+	{"dns-idn-ascii-only-alabel-sld", func() *der.Node { return GNDNS("xn--example-.com") }},
+	{"dns-idn-empty-alabel", func() *der.Node { return GNDNS("xn--.example.com") }},
+	{"dns-idn-nested-alabel", func() *der.Node { return GNDNS("xn--xn--bcher-kva-.example.com") }},
+	{"dns-idn-cyrillic", func() *der.Node { return GNDNS("xn--80ak6aa92e.com") }},
+	{"dns-idn-tld", func() *der.Node { return GNDNS("www.example.xn--p1ai") }},
+	{"dns-idn-tld-upper", func() *der.Node { return GNDNS("www.example.XN--P1AI") }},
+	{"dns-idn-ulabel-utf8", func() *der.Node { return GNDNS("b\xc3\xbccher.example.com") }},
+	{"dns-idn-two-labels-same-folded", func() *der.Node { return GNDNS("xn--H-oeb.xn--h-oeb.example.com") }},
 	{"dns-empty-label", func() *der.Node { return GNDNS("www..example.com") }},
 	{"dns-trailing-dot", func() *der.Node { return GNDNS("www.example.com.") }},
 	{"dns-leading-dot", func() *der.Node { return GNDNS(".example.com") }},
